@@ -31,6 +31,32 @@ H = {
     'getkey_take_while_last': ('k_scan.rs.tmpl', 'scan', ('quick', 'thorough'), 'R11: take_while(out <= value).last()', 'window'),
     'registry_find': ('k_scan.rs.tmpl', 'scan', ('quick', 'thorough'), 'R11: first hit of the cache row (position over the find closure)', 'window'),
 }
+# second back end for the small bit-level / arithmetic functions of units encode and decode (see kani/k_bits.rs): run in the thorough tier, and on
+# demand when Verus fails one of these functions (tier 'fallback')
+BITS = {
+    'bits_pack_sizes': 'PackSizes::{new, decode, encode, transition_pack_size, output_pack_size, set_transition_pack_size, set_output_pack_size} against the nibble layout',
+    'bits_state_any': 'StateAnyTrans::{new, set_final_state, is_final_state, set_state_ntrans, state_ntrans, ntrans_len} against the state-byte layout',
+    'bits_state_any_sizes': 'StateAnyTrans::{trans_index_size, total_trans_size} against the size formulas',
+    'bits_state_one': 'StateOneTransNext / StateOneTrans::{new, set_common_input, common_input, input_len} against the state-byte layout',
+    'bits_state_new': 'State::new: class = top two bits, address 0 = empty final',
+    'bits_pack_size': 'bytes::pack_size == least byte width; pack_delta_size == width of the delta',
+}
+for _h, _d in BITS.items():
+    H[_h] = ('k_bits.rs', 'crate', ('thorough', 'fallback'), _d, 'complete (loop-free, full input domain)')
+# Verus function (unit, name as in the ledger) -> harness that states the same contract
+FALLBACK = {}
+for _f in ('new', 'decode', 'encode', 'transition_pack_size', 'output_pack_size', 'set_transition_pack_size', 'set_output_pack_size'):
+    FALLBACK['PackSizes::' + _f] = 'bits_pack_sizes'
+for _f in ('new', 'set_final_state', 'is_final_state', 'set_state_ntrans', 'state_ntrans', 'ntrans_len'):
+    FALLBACK['StateAnyTrans::' + _f] = 'bits_state_any'
+for _f in ('trans_index_size', 'total_trans_size'):
+    FALLBACK['StateAnyTrans::' + _f] = 'bits_state_any_sizes'
+for _s in ('StateOneTransNext', 'StateOneTrans'):
+    for _f in ('new', 'set_common_input', 'common_input', 'input_len'):
+        FALLBACK[_s + '::' + _f] = 'bits_state_one'
+FALLBACK['State::new'] = 'bits_state_new'
+FALLBACK['pack_size'] = 'bits_pack_size'
+FALLBACK['pack_delta_size'] = 'bits_pack_size'
 for j in range(15):
     H['table16_succ_%02d' % j] = ('k_tables.rs', 'crate', ('quick', 'thorough'), 'TABLE16[%d+1][i] is one zero-byte step of TABLE16[%d][i]' % (j, j), 'complete (256 concrete entries)')
 
